@@ -5,6 +5,8 @@
 //!   e  owner kind    topic QoS
 //!   1  p1    reader  T     compatible      2  p1 writer T compatible    3  p1 reader T incompatible
 //!   4  p2    reader  T     compatible      5  p2 writer T compatible    6  p2 writer other-topic
+//!   7  p1    writer  T     compatible, other values (shorter max_blocking_time, stronger durability)
+//!   8  p1    reader  T     compatible, other values (longer max_blocking_time, finite deadline and latency budget)
 
 use std::collections::HashMap;
 
@@ -35,10 +37,11 @@ pub struct DRunSpec {
     pub acts: Vec<DAct>,
 }
 
-const OWNER: [u8; 7] = [0, 1, 1, 1, 2, 2, 2];
-const IS_READER: [bool; 7] = [false, true, false, true, true, false, false];
-const ON_TOPIC: [bool; 7] = [false, true, true, true, true, true, false];
-const COMPAT: [bool; 7] = [false, true, true, false, true, true, true];
+const NE: u8 = 8;
+const OWNER: [u8; 9] = [0, 1, 1, 1, 2, 2, 2, 1, 1];
+const IS_READER: [bool; 9] = [false, true, false, true, true, false, false, false, true];
+const ON_TOPIC: [bool; 9] = [false, true, true, true, true, true, false, true, true];
+const COMPAT: [bool; 9] = [false, true, true, false, true, true, true, true, true];
 
 fn prefix(p: u8) -> [u8; 12] {
     [0x30 + p; 12]
@@ -63,7 +66,21 @@ fn local_qos() -> QosPolicies {
 /// QoS of remote endpoint e: compatible = same as local; incompatible reader requests TransientLocal
 /// durability from our Volatile writer; incompatible writer offers BestEffort to our Reliable reader
 fn remote_qos(e: u8) -> QosPolicies {
-    if COMPAT[e as usize] {
+    if e == 7 {
+        // offers more than the local reader asks for; max_blocking_time is not part of the request/offered rule
+        QosPolicyBuilder::new()
+            .reliability(Reliability::Reliable { max_blocking_time: Duration::from_millis(10) })
+            .durability(Durability::TransientLocal)
+            .deadline(Deadline(Duration::from_millis(500)))
+            .build()
+    } else if e == 8 {
+        // asks for less than the local writer offers
+        QosPolicyBuilder::new()
+            .reliability(Reliability::Reliable { max_blocking_time: Duration::from_secs(1) })
+            .durability(Durability::Volatile)
+            .latency_budget(LatencyBudget { duration: Duration::from_secs(5) })
+            .build()
+    } else if COMPAT[e as usize] {
         local_qos()
     } else if IS_READER[e as usize] {
         QosPolicyBuilder::new().reliability(Reliability::Reliable { max_blocking_time: Duration::from_millis(100) }).durability(Durability::TransientLocal).build()
@@ -150,8 +167,8 @@ pub fn run_one(run_no: usize, spec: &DRunSpec, out: &mut Vec<Value>) -> Vec<Vec<
     vec![]
 }
 
-/// leases never on a tick boundary: ticks are multiples of 1000 ms, leases end in 500
-const LEASES: [i64; 6] = [500, 1500, 3500, 10_500, 100_500, -1];
+/// leases never on a tick boundary: ticks are multiples of 100 ms, leases end in 50
+const LEASES: [i64; 8] = [550, 1150, 1550, 2550, 3550, 10_550, 100_550, -1];
 
 pub fn random_run(rng: &mut StdRng, n: usize) -> DRunSpec {
     let mut acts = vec![];
@@ -177,7 +194,7 @@ pub fn random_run(rng: &mut StdRng, n: usize) -> DRunSpec {
                 }
             }
             30..=49 => {
-                let dt = [1000u64, 1000, 2000, 4000, 11_000, 61_000, 101_000][rng.gen_range(0..7)];
+                let dt = [300u64, 400, 700, 1000, 1000, 2000, 4000, 11_000, 61_000, 101_000][rng.gen_range(0..10)];
                 acts.push(DAct::Tick { dt });
                 now += dt as i64;
             }
@@ -194,7 +211,7 @@ pub fn random_run(rng: &mut StdRng, n: usize) -> DRunSpec {
                 known[p as usize] = false;
             }
             70..=89 => {
-                let e = rng.gen_range(1..=6u8);
+                let e = rng.gen_range(1..=NE);
                 let o = OWNER[e as usize] as usize;
                 // endpoints are announced by participants that are present (SPDP first)
                 if !known[o] {
@@ -206,7 +223,7 @@ pub fn random_run(rng: &mut StdRng, n: usize) -> DRunSpec {
                 }
                 acts.push(DAct::Announce { e });
             }
-            _ => acts.push(DAct::DisposeE { e: rng.gen_range(1..=6u8) }),
+            _ => acts.push(DAct::DisposeE { e: rng.gen_range(1..=NE) }),
         }
     }
     DRunSpec { acts }
